@@ -64,7 +64,7 @@ class ClassTr:
 
     def __init__(self, tree, cls, prefix, ctor_params=None, methods=(), drop_args=('rtol', 'tol'),
                  known=None, skip_attrs=(), const_attrs=None, extra_np1=None, obj_attr=None, none_args=(),
-                 param_calls=None, arg_objs=()):
+                 param_calls=None, arg_objs=(), skip_calls=()):
         self.tree = tree
         self.cls = cls
         self.prefix = prefix
@@ -78,6 +78,9 @@ class ClassTr:
         self.param_calls = dict(param_calls or {})   # `self.m(...)` calls that are free parameters of the model: method -> parameter
         self.arg_objs = set(arg_objs)         # arguments that are records: `arg.X` becomes the parameter X
         self.obj_fields = []                  # fields of arg_objs read by the current method, in order of first use
+        self.skip_calls = set(skip_calls)     # `self.m(...)` expression statements without effect on the value (validation)
+        self.list_consts = {}                 # local names bound to a literal list of tuples of numbers (look-up tables)
+        self._used_param_calls = set()
         self._rbar = set()                    # let-bound names of type Rbar (values built with np.inf)
         self._inlining = []
         self.classes = {n.name: n for n in tree.body if isinstance(n, ast.ClassDef)}
@@ -295,6 +298,10 @@ class ClassTr:
             if t is ast.Eq:
                 return '(Req_EM_T %s %s)' % (a, b)
             raise Unsupported('comparison ' + ast.dump(c.ops[0]))
+        if isinstance(c, ast.Call) and ast.unparse(c.func) == 'np.isclose' and len(c.args) == 2 and not c.keywords:
+            # numpy default tolerances:  |a - b| <= atol + rtol * |b|,  atol = 1e-8, rtol = 1e-5
+            a, b = self.expr(c.args[0], env), self.expr(c.args[1], env)
+            return '(Rle_dec (Rabs (%s - %s)) (1 / 100000000 + 1 / 100000 * Rabs %s))' % (a, b, b)
         raise Unsupported('condition ' + ast.unparse(c)[:60])
 
     def power(self, b, x, env):
@@ -332,6 +339,11 @@ class ClassTr:
             return '(Rabs %s)' % self.expr(n.args[0], env)
         if isinstance(f, ast.Name) and f.id == 'float' and len(n.args) == 1:
             return self.expr(n.args[0], env)
+        if isinstance(f, ast.Name) and f.id in ('max', 'min') and len(n.args) == 2 and not kw and f.id not in env:
+            return '(%s %s %s)' % ('Rmax' if f.id == 'max' else 'Rmin', self.expr(n.args[0], env), self.expr(n.args[1], env))
+        if isinstance(f, ast.Attribute) and isinstance(f.value, ast.Name) and f.value.id == 'self' and f.attr in self.param_calls:
+            self._used_param_calls.add(self.param_calls[f.attr])      # a library / pandas computation: free parameter of the model
+            return self.param_calls[f.attr]
         if isinstance(f, ast.Name) and f.id in env and env[f.id].startswith('@local:'):
             return '(%s %s)' % (env[f.id][7:], ' '.join(self.expr(a, env) for a in n.args))
         if isinstance(f, ast.Name) and f.id in self.known:
@@ -356,6 +368,10 @@ class ClassTr:
         """Translate a straight-line body; returns the Coq expression of the returned value."""
         stmts = self.flatten(stmts)
         for i, st in enumerate(stmts):
+            if isinstance(st, ast.Assign) and len(st.targets) == 1 and isinstance(st.targets[0], ast.Name) \
+                    and self._table_literal(st.value) is not None:
+                self.list_consts[st.targets[0].id] = self._table_literal(st.value)
+                continue
             if isinstance(st, ast.If) and self._is_none_test(st.test) is not None and not st.orelse and len(st.body) == 1 \
                     and isinstance(st.body[0], ast.Assign) and len(st.body[0].targets) == 1 \
                     and isinstance(st.body[0].targets[0], ast.Name) and st.body[0].targets[0].id == self._is_none_test(st.test):
@@ -418,6 +434,42 @@ class ClassTr:
                 lets.append('let %s := (fun %s => %s %s) in' % (nm, ' '.join(ident(a) for a in args), ' '.join(l2), r))
                 env[st.name] = '@local:' + nm
                 continue
+            if isinstance(st, ast.Expr) and isinstance(st.value, ast.Call) and isinstance(st.value.func, ast.Attribute) \
+                    and isinstance(st.value.func.value, ast.Name) and st.value.func.value.id == 'self' \
+                    and st.value.func.attr in self.skip_calls:
+                continue
+            if isinstance(st, ast.Raise):
+                return '0'        # the call raises: outside the model (theorems carry the guard); value irrelevant
+            if isinstance(st, ast.If) and self._optional_key_default(st):
+                continue
+            if isinstance(st, ast.If) and len(st.body) == 1 and isinstance(st.body[0], ast.Return) and not st.orelse \
+                    and not isinstance(st.body[0].value, ast.Tuple):
+                # early return:  if c: return e ; rest
+                c = self.cond(st.test, env)
+                v = self.expr(st.body[0].value, env)
+                return '(if %s then %s else %s)' % (c, v, self.rest(stmts[i + 1:], env))
+            if isinstance(st, ast.If) and self._branch_assign(st) is not None:
+                # if/elif/else that assigns one and the same name in every branch (a branch may raise instead)
+                name = self._branch_assign(st)
+                v = self._branch_value(st, name, env)
+                nm = ident(name)
+                lets.append('let %s := %s in' % (nm, v))
+                env[name] = nm
+                continue
+            if isinstance(st, ast.For) and isinstance(st.iter, ast.Name) and st.iter.id in self.list_consts and not st.orelse \
+                    and isinstance(st.target, ast.Tuple) and all(isinstance(e, ast.Name) for e in st.target.elts):
+                # look-up loop over a literal table: unrolled
+                rows = self.list_consts[st.iter.id]
+                names = [e.id for e in st.target.elts]
+                if any(len(r) != len(names) for r in rows) or len(st.body) != 1 or not isinstance(st.body[0], ast.If) \
+                        or len(st.body[0].body) != 1 or not isinstance(st.body[0].body[0], ast.Return) or st.body[0].orelse:
+                    raise Unsupported('for loop ' + ast.unparse(st)[:60])
+                out = self.rest(stmts[i + 1:], env)
+                for r in reversed(rows):
+                    env2 = dict(env)
+                    env2.update({nm: lit(v) for nm, v in zip(names, r)})
+                    out = '(if %s then %s else %s)' % (self.cond(st.body[0].test, env2), self.expr(st.body[0].body[0].value, env2), out)
+                return out
             if isinstance(st, ast.If):
                 # `if not isinstance(x, float): x = x.astype(float)` style identities
                 src = ast.unparse(st)
@@ -439,6 +491,83 @@ class ClassTr:
                 return self.expr(v, env)
             raise Unsupported('statement ' + ast.unparse(st)[:70])
         raise Unsupported('no return statement')
+
+    def rest(self, stmts, env):
+        """The remaining statements as one expression.  Statements that only prepare an error message in front of an
+        unconditional raise are not translated."""
+        k = next((j for j, x in enumerate(stmts) if isinstance(x, ast.Raise)), None)
+        if k is not None and all(isinstance(x, (ast.Assign, ast.Expr)) for x in stmts[:k]):
+            return '0'
+        l2 = []
+        r = self.body(stmts, dict(env), l2)
+        return '(%s %s)' % (' '.join(l2), r) if l2 else r
+
+    @staticmethod
+    def _table_literal(v):
+        if not isinstance(v, ast.List) or not v.elts:
+            return None
+        rows = []
+        for e in v.elts:
+            if not isinstance(e, ast.Tuple):
+                return None
+            row = []
+            for c in e.elts:
+                if isinstance(c, ast.Constant) and isinstance(c.value, (int, float)) and not isinstance(c.value, bool):
+                    row.append(c.value)
+                else:
+                    return None
+            rows.append(row)
+        return rows
+
+    def _optional_key_default(self, st):
+        """`if "key" not in params: params["key"] = <constant>` for a key the model never reads."""
+        t = st.test
+        if not (isinstance(t, ast.Compare) and len(t.ops) == 1 and isinstance(t.ops[0], ast.NotIn) and isinstance(t.left, ast.Constant)
+                and isinstance(t.left.value, str) and isinstance(t.comparators[0], ast.Name) and t.comparators[0].id in self.arg_objs):
+            return False
+        if st.orelse or len(st.body) != 1 or not isinstance(st.body[0], ast.Assign):
+            return False
+        tg = st.body[0].targets[0]
+        ok = isinstance(tg, ast.Subscript) and isinstance(tg.value, ast.Name) and tg.value.id == t.comparators[0].id \
+            and isinstance(tg.slice, ast.Constant) and tg.slice.value == t.left.value and isinstance(st.body[0].value, ast.Constant)
+        if ok and t.left.value in self.obj_fields:
+            raise Unsupported('defaulted key %s is read by the model' % t.left.value)
+        if ok:
+            self._defaulted = getattr(self, '_defaulted', set()) | {t.left.value}
+        return ok
+
+    def _branches(self, st):
+        """[(test or None, body)] of an if/elif/else chain."""
+        out = []
+        while True:
+            out.append((st.test, st.body))
+            if len(st.orelse) == 1 and isinstance(st.orelse[0], ast.If):
+                st = st.orelse[0]
+                continue
+            if st.orelse:
+                out.append((None, st.orelse))
+            return out
+
+    def _branch_assign(self, st):
+        names = set()
+        br = self._branches(st)
+        for _, body in br:
+            if len(body) == 1 and isinstance(body[0], ast.Raise):
+                continue
+            if len(body) == 1 and isinstance(body[0], ast.Assign) and len(body[0].targets) == 1 and isinstance(body[0].targets[0], ast.Name):
+                names.add(body[0].targets[0].id)
+            else:
+                return None
+        if len(names) != 1 or br[-1][0] is not None:      # needs a final else: every path defines the name or raises
+            return None
+        return names.pop()
+
+    def _branch_value(self, st, name, env):
+        out = None
+        for test, body in reversed(self._branches(st)):
+            v = '0' if isinstance(body[0], ast.Raise) else self.expr(body[0].value, env)
+            out = v if test is None else '(if %s then %s else %s)' % (self.cond(test, env), v, out)
+        return out
 
     @staticmethod
     def _is_none_test(t):
@@ -477,7 +606,7 @@ class ClassTr:
         self._used_param_calls = set()
         lets = ['let %s := %s in' % (self.attr_name(a), e) for a, e in self.attr_lets]
         ret = self.body(strip_doc(fn.body), env, lets)
-        params = [ident(p) for p in self.ctor_params] + [ident(a) for a in args] + [ident(a) for a in self.obj_fields] \
+        params = [ident(p) for p in self.ctor_params] + [ident(a) for a in args] + [ident(a) for a in sorted(self.obj_fields)] \
             + [p for p in dict.fromkeys(self.param_calls.values()) if p in self._used_param_calls]
         out = 'Definition %s%s %s :=\n' % (self.prefix, name, ' '.join('(%s : R)' % p for p in params))
         for l in lets:
